@@ -30,6 +30,9 @@ func runC07(c *Check, tier string) {
 	ruleReaderConsumedOnce(c, "R07i", "caching", "output")
 	// a result is visible only after its blobs: no upload error is lost on the way to the record
 	ruleWritePathErrors(c, "R07k")
+	ruleCommitOnlyAfterCopy(c, "R07l")
+	ruleMemoInvalidatedOnDelete(c, "R07m")
+	ruleUploadLoopComplete(c, "R07n")
 	// a build killed while it held the workspace lock must not block the next one
 	if li := findLocker(c, "R07j"); li != nil {
 		ruleR10b(c, li, "R07j", false)
@@ -615,4 +618,175 @@ func isCobraRun(c *Check, fn *ssa.Function) bool {
 		}
 	}
 	return false
+}
+
+// R07l: a streamed upload is committed only when it is complete. Closing a GCS object writer commits the object;
+// when the copy into it failed the upload has to be abandoned (return without Close, cancel the context), or the
+// bucket keeps a truncated blob under a content digest and every later build skips the upload because it exists.
+func ruleCommitOnlyAfterCopy(c *Check, rule string) {
+	c.Rule(rule, "in the remote backends every Close of an object writer (the call that commits the upload) is reachable only when the copy into the writer returned nil: not on the copy's failure path, and not from a deferred function that runs on it", 1)
+	const closeName = "(*cloud.google.com/go/storage.Writer).Close"
+	n := 0
+	for _, fn := range c.P.Funcs {
+		if !engine.InPackage(fn, "caching/backends") || fn.Parent() != nil {
+			continue
+		}
+		var closes []ssa.CallInstruction
+		for _, f := range engine.AnonFuncsDeep(fn) {
+			closes = append(closes, callsNamed(f, closeName)...)
+		}
+		if len(closes) == 0 {
+			continue
+		}
+		copies := callsNamed(fn, "io.Copy", "io.CopyBuffer", "io.CopyN")
+		for _, cl := range closes {
+			n++
+			key := "commit-after-copy/" + c.P.FuncName(fn)
+			bad := ""
+			if cl.Parent() != fn {
+				// inside a function literal: if it is deferred it runs on the failure path as well, unless
+				// the Close is guarded by a nil test on a captured error
+				deferred := false
+				for _, s := range engine.SitesIn(fn) {
+					if _, isDefer := s.(*ssa.Defer); isDefer {
+						for _, cal := range c.G.CalleesOf(s) {
+							if cal == cl.Parent() {
+								deferred = true
+							}
+						}
+					}
+				}
+				if deferred {
+					guarded := engine.CutEdgesWhere(func(a engine.Atom) bool {
+						if a.Op != "nil" {
+							return false
+						}
+						for _, o := range engine.Origins(a.V) {
+							if ld, ok := o.(*ssa.UnOp); ok {
+								if _, isFree := ld.X.(*ssa.FreeVar); isFree {
+									return true
+								}
+							}
+						}
+						return false
+					})
+					if r, _ := engine.PathExists(cl.Parent(), nil, engine.IsInstr(cl), engine.PathQuery{CutEdge: guarded, Shallow: true}); r {
+						bad = "the writer is closed in a deferred function, which also runs when the copy failed"
+					}
+				}
+			} else {
+				for _, cp := range copies {
+					if r, _ := engine.PathExists(fn, cp, engine.IsInstr(cl), engine.PathQuery{CutEdge: engine.NilErrEdgesOf(cp), Shallow: true}); r {
+						bad = "the writer is closed on the path taken when the copy failed"
+					}
+				}
+				if _, isDefer := cl.(*ssa.Defer); isDefer {
+					bad = "the writer's Close is deferred, so it also runs when the copy failed"
+				}
+			}
+			c.Require(bad == "", rule, key, "the upload is committed only after the whole content was copied", bad+": the object store commits whatever arrived, i.e. a truncated or empty blob under a content digest; `Exists` answers true from then on, later builds skip the upload, and every machine restores the damaged content", c.P.InstrPos(cl))
+		}
+	}
+	if n == 0 {
+		c.Unknown(rule, "commit-after-copy", "no object-writer Close found in the remote backends", "-")
+	}
+}
+
+// R07m: the 'digest exists' memo never outlives the blob. Wherever the CAS removes a digest from the backend it
+// also forgets it, or a later write of the same digest is skipped as "already there".
+func ruleMemoInvalidatedOnDelete(c *Check, rule string) {
+	c.Rule(rule, "every function of the CAS that deletes a digest from the backend also removes it from the exists-memo (sync.Map Delete / Clear, or a Store of false) before it returns successfully", 0)
+	n := 0
+	for _, fn := range c.P.Funcs {
+		if !engine.InPackage(fn, "caching") || fn.Signature.Recv() == nil || engine.TypeKey(fn.Signature.Recv().Type()) != "caching.Cas" {
+			continue
+		}
+		for _, s := range engine.SitesIn(fn) {
+			cc := s.Common()
+			if !cc.IsInvoke() || cc.Method.Name() != "Delete" || engine.TypeKey(cc.Value.Type()) != "caching/backends.CacheBackend" {
+				continue
+			}
+			n++
+			forgets := func(in ssa.Instruction) bool {
+				call, ok := in.(ssa.CallInstruction)
+				if !ok {
+					return false
+				}
+				switch engine.CalleeName(call) {
+				case "(*sync.Map).Delete", "(*sync.Map).Clear", "(*sync.Map).LoadAndDelete", "(*sync.Map).CompareAndDelete":
+					return true
+				case "(*sync.Map).Store":
+					args := call.Common().Args
+					if k, isK := engine.BoolConst(args[len(args)-1]); isK && !k {
+						return true
+					}
+					if mi, ok := args[len(args)-1].(*ssa.MakeInterface); ok {
+						if k, isK := engine.BoolConst(mi.X); isK && !k {
+							return true
+						}
+					}
+				}
+				return false
+			}
+			reach, _ := nilReturnReachable(fn, engine.PathQuery{CutInstr: forgets, Shallow: true}, 0)
+			c.Require(!reach, rule, "memo-invalidated-on-delete/"+c.P.FuncName(fn), "the digest is forgotten wherever it is deleted", "the CAS deletes a digest from the backend but keeps it in its 'exists' memo: the next write of the same content in this build is skipped as already stored, and the target result that is written afterwards references a blob that no longer exists", c.P.InstrPos(s))
+		}
+	}
+	if n == 0 {
+		c.OK(rule, "memo-invalidated-on-delete", "the CAS never deletes from its backend", "-")
+	}
+}
+
+// R07n: every blob a record names is handed to the store. A loop that starts one upload per listed file has to
+// run to the end of the list; leaving it early (a break on cancellation, a cap) and still reporting success
+// produces a tree whose blobs were never stored.
+func ruleUploadLoopComplete(c *Check, rule string) {
+	c.Rule(rule, "in the output handlers every loop that starts uploads (a CAS write, directly or in a goroutine it spawns) is a full range that is never left early on a path to a successful return", 1)
+	casWrite := c.P.Func("caching", "Cas", "Write")
+	n := 0
+	for _, fn := range c.P.Funcs {
+		if !engine.InPackage(fn, "output/handlers") || fn.Parent() != nil {
+			continue
+		}
+		for _, lp := range engine.LoopsOf(fn) {
+			starts := false
+			for b := range lp.Body {
+				for _, in := range b.Instrs {
+					cs, ok := in.(ssa.CallInstruction)
+					if !ok {
+						continue
+					}
+					targets := c.G.CalleesOf(cs)
+					if _, isGo := in.(*ssa.Go); isGo || len(spawnedAt(c, cs)) > 0 {
+						targets = append(targets, spawnedAt(c, cs)...)
+						for f := range c.G.ReachableFuncs(targets, func(g *ssa.Function) bool { return !engine.InPackage(g, "output/handlers") && g != casWrite }) {
+							if f == casWrite {
+								starts = true
+							}
+						}
+					} else {
+						for _, f := range targets {
+							if f == casWrite {
+								starts = true
+							}
+						}
+					}
+				}
+			}
+			if !starts {
+				continue
+			}
+			n++
+			key := "upload-loop-complete/" + c.P.FuncName(fn)
+			if !lp.IsFullRange() {
+				c.Bad(rule, key, "the loop that starts the uploads is not a full range over the list of files", c.P.Pos(fn.Pos()))
+				continue
+			}
+			why := lp.EarlyExitReaches(successReturn)
+			c.Require(why == "", rule, key, "the loop runs over every listed file; leaving it early leads to an error", "the loop that starts the uploads can be left before the end of the list ("+why+") and the function still returns success: the record is stored although some of the blobs it names were never uploaded — an interrupted or throttled build leaves a cache entry that cannot be restored", c.P.Pos(fn.Pos()))
+		}
+	}
+	if n == 0 {
+		c.Unknown(rule, "upload-loop-complete", "no loop that starts CAS writes found in the output handlers", "-")
+	}
 }
